@@ -61,7 +61,7 @@ func c03Programs(r *vc.Run) {
 		c := c01GenCase(rnd, i, kinds, "k")
 		if i%2 == 0 {
 			// emphasise composite and non-integer keys
-			pk := []string{"composite", "composite3", "varchar", "binary", "varchar_colon", "composite_txt"}[rnd.Intn(6)]
+			pk := []string{"composite", "composite3", "varchar", "binary", "varchar_colon", "composite_txt", "int+uq", "varchar+uq", "composite+uq"}[rnd.Intn(9)]
 			c.Tables[0] = atGenTable(rnd, c.Tables[0].Name, pk, kinds, 2+rnd.Intn(2), 3+rnd.Intn(4), rnd.Bool())
 			// regenerate the program for the new table
 			c2 := c01GenCaseForTable(rnd, c.Name, c.Tables[0])
@@ -133,7 +133,7 @@ func c01GenCaseForTable(r *vc.Rand, name string, t *atTable) *atCase {
 			case 3:
 				o.shuffleCols = r.Bool()
 				grp.Stmts = append(grp.Stmts, atGenInsert(r, t, o, 1, &seq))
-				if t.PKKind != "autoinc" && r.Bool() {
+				if !strings.HasPrefix(t.PKKind, "autoinc") && r.Bool() {
 					// the row just inserted is written again by another statement form (same or next local transaction)
 					revisit = append(revisit, seq)
 				}
@@ -141,7 +141,10 @@ func c01GenCaseForTable(r *vc.Rand, name string, t *atTable) *atCase {
 				o.shuffleCols = r.Bool()
 				grp.Stmts = append(grp.Stmts, atGenInsert(r, t, o, 2+r.Intn(2), &seq))
 			case 5:
-				if r.Intn(3) == 0 {
+				// now and then the update list assigns the very unique-index column a row may be found by (finding C03-K1)
+				o.assignUq = t.Uniq >= 0 && r.Intn(4) == 0
+				o.nullThenUqHit = t.Uniq >= 0 && !o.assignUq && r.Bool()
+				if r.Intn(3) == 0 || o.nullThenUqHit {
 					grp.Stmts = append(grp.Stmts, atGenUpsertMulti(r, t, o, &seq))
 				} else {
 					grp.Stmts = append(grp.Stmts, atGenUpsert(r, t, o, r.Bool(), &seq))
